@@ -48,6 +48,10 @@ def cust_t(rel):
     return rel['Kdown3'] * rel['alpha']
 
 
+def cust_other(rel):
+    return rel['alpha'] * 0 + 123.0
+
+
 def my_est(a):
     return float(np.mean(a ** 2))
 
@@ -89,6 +93,9 @@ def build_table(spec, n):
     times = [0.1 + 0.37 * k for k in range(spec['steps'])]
     tvals = [int(10 * (k + 1)) if spec['tkey'] in ('it', 'iteration') else t
              for k, t in enumerate(times)]
+    if spec['tkey'] in ('t', 'time') and spec['seed'] % 3 == 0:
+        # hand-typed times: integers and floats mixed, earliest one an integer
+        tvals = [1] + [1.5 + 0.75 * k for k in range(1, len(times))]
     rows = []
     for t in times:
         ex = S.exact_fields(st, t, x, y, z, Lam=spec['Lambda'])
@@ -141,7 +148,17 @@ def run_scenario(spec, n):
             for pi, part in enumerate(parts):
                 last = pi == len(parts) - 1
                 e = est if (spec['est_each_call'] or last) else []
-                cur = atime.over_time(cur, fd, vars=var_list(part), estimates=list(e),
+                vl = var_list(part)
+                done = [nm for prev in parts[:pi] for nm in prev if nm in CUSTOM]
+                if done and any(isinstance(v, dict) for v in vl):
+                    # a later call passes ONE dict holding a new custom variable
+                    # together with one that is already a column (under another
+                    # function): the existing column must stay as it is
+                    for v in vl:
+                        if isinstance(v, dict):
+                            v[done[0]] = cust_other
+                            break
+                cur = atime.over_time(cur, fd, vars=vl, estimates=list(e),
                                       verbose=False, **kw)
         tables[mode] = cur
     untouched = same(data, snap) and all(np.array_equal(a, b) for a, b in zip(
